@@ -469,10 +469,16 @@ fn run(ctx: &mut Ctx) {
             ];
             let v = json::parse_str(val);
             let want = V::Arr(vec![v.clone(), v.clone(), V::Arr(vec![v.clone()])]);
+            // the name given by an expression that reads the record (and has a constant fall-back): the binding is
+            // made under the name the expression has for THIS record
+            let mut cases = cases;
+            cases.push(("set-name-from-the-record", vec![], format!("(set (default .nm \"fallback\") {val} (push [] :{name} (: \"{name}\") (map (range 1) :{name})))")));
+            cases.push(("define-name-from-the-record", vec![], format!("(define (default .nm \"fallback\") {val} (push [] @{name} (@ \"{name}\") (map (range 1) @{name})))")));
+            let record = format!("{}\n", json::to_text(&V::Obj(vec![("nm".into(), V::s(name))])));
             for (form, extra, e) in cases {
                 let mut args = extra.clone();
                 args.push(format!("--select={e}=r"));
-                let case = Case::owned(args, b"null\n".to_vec());
+                let case = Case::owned(args, record.clone().into_bytes());
                 let obs = ctx.run(&case);
                 ctx.case_done();
                 ctx.trace_validated();
@@ -486,5 +492,5 @@ fn run(ctx: &mut Ctx) {
             }
         }
     }
-    ctx.level_done("binding-names(14-names-x-6-forms)");
+    ctx.level_done("binding-names(14-names-x-8-forms)");
 }
